@@ -27,6 +27,8 @@ type SQLEvent struct {
 	Fault     string
 	CallerGone bool // the caller's context had already ended when the statement was delivered
 	Issued     time.Duration // instant at which the caller issued the statement
+	Pending    bool          // marker of a delayed statement; Final is its outcome once delivered
+	Final      *SQLEvent
 	It         *iterRec // state-handler invocation of Src that was open when the statement was issued (nil: none)
 	Aux        string   // for replica-status reads: what the server showed (role, threads)
 	CleanWrt   []string // for replica-status reads: servers whose holdings contain this server's executed set, if it showed no replication error
@@ -34,6 +36,9 @@ type SQLEvent struct {
 
 // toldOK: the issuing process was told that the statement succeeded
 func (e *SQLEvent) toldOK() bool {
+	if e.Pending {
+		return e.Final != nil && e.Final.toldOK()
+	}
 	return e.Applied && e.Err == "" && e.Fault != "lost" && !e.CallerGone
 }
 
@@ -190,6 +195,11 @@ func (s *Sim) scheduleCall(c *call) {
 		n, _ := strconv.Atoi(flt[5:])
 		lat += time.Duration(n) * time.Millisecond
 		flt = ""
+		if n >= 1000 {
+			// may outlast the caller's deadline: until it is delivered the monitors see a pending attempt
+			c.marker = &SQLEvent{Seq: s.evSeq, T: s.now(), Src: c.src, Dst: c.dst, Kind: queryKind(c.query), Query: c.query, Args: c.args, Mutating: isMutating(c.query), Fault: "slow", Err: "pending", Pending: true, It: c.it, Issued: c.issued}
+			s.mon.onSQL(c.marker)
+		}
 	}
 	if s.spec.World.Burst {
 		// race-hunting mode: everything pending is released at the same instant
@@ -300,6 +310,9 @@ func (s *Sim) deliverSQL(c *call, flt string) {
 	ev := &SQLEvent{Seq: s.evSeq, T: s.now(), Src: c.src, Dst: c.dst, Kind: queryKind(c.query), Query: c.query, Args: c.args, Mutating: isMutating(c.query), Fault: flt, It: c.it, Issued: c.issued}
 	if c.ctx != nil && c.ctx.Err() != nil {
 		ev.CallerGone = true
+	}
+	if c.marker != nil {
+		c.marker.Final = ev
 	}
 	srcHost := srcHostOf(c.src)
 	fail := func(err error) {
